@@ -429,6 +429,41 @@ def run_http(chk, built, tref, treedefs):
                     chk.fail("c07:gateway-left-keyless-directory:%s" % label, "[%s] after its own deletes the gateway leaves directories that hold no key (%s); the delimited listing shows common prefixes %r, the remaining keys have %r"
                              % (label, sorted(onfs), cps, want_cps), meta)
             chk.tie("gateway still running after the put/delete histories (%s)" % label, g.alive(), g.log_tail())
+    # ---- an upload in flight: a listing taken while a PUT is parked between naming its temporary file and the rename shows the keys
+    # that were acknowledged and nothing else (no bookkeeping name, not the unfinished key unless it existed)
+    from vlib import hooks
+    for label, cfg in (("otmpfile", {"iam": False}), ("named-temp", {"iam": False, "otmp": False})):
+        with gw.Site(cfg, name="c07h") as site:
+            hk = hooks.Hooks(site.base)
+            g = site.gateway(gwbin, extra_env=hk.env())
+            A, B = s3c.Client(g.port, "root", "rootsecret"), s3c.Client(g.port, "root", "rootsecret")
+            assert A.req("PUT", "/inflight").status == 200
+            for k in ("top", "dir/kept", "dir/sub/kept2"):
+                A.req("PUT", "/inflight/" + k, body=b"x")
+            for at in ("posix.putobject.bodywritten", "posix.putobject.beforelink", "posix.link.enter", "posix.link.named", "posix.link.beforerename"):
+                for target, before in (("dir/new-object", ["dir/kept", "dir/sub/kept2", "top"]), ("newtop", ["dir/kept", "dir/sub/kept2", "top"]), ("dir/kept", ["dir/kept", "dir/sub/kept2", "top"])):
+                    def lists():
+                        out = []
+                        for q in ({"list-type": "2"}, {"list-type": "2", "prefix": "dir/", "delimiter": "/"}, {}):
+                            r = B.req("GET", "/inflight", query=q)
+                            out.append((q, sorted(c.findtext("Key") for c in r.xml().findall("Contents")) if r.status == 200 and r.xml() is not None else None))
+                        return out
+                    w, ls, parked = hooks.held(hk, at, lambda: A.req("PUT", "/inflight/" + target, body=b"in-flight"), lists)
+                    hk.clear()
+                    chk.case(("inflight", label, at, target), True); chk.traces += 1
+                    if not parked or ls is None:
+                        chk.count("inflight:not-reached"); A.req("DELETE", "/inflight/" + target) if target not in before else None; continue
+                    for q, keys in ls:
+                        allowed = set(before) | {target}
+                        want_min = [k for k in before if not q.get("prefix") or (k.startswith(q["prefix"]) and "/" not in k[len(q["prefix"]):])]
+                        stray = [k for k in (keys or []) if k not in allowed]
+                        missing = [k for k in want_min if k not in (keys or [])]
+                        if keys is None or stray or missing:
+                            chk.fail("c07:listing-during-upload", "[%s] a listing %s taken while PUT %s is parked at %s shows %r (stray %r, missing %r)" % (label, q, target, at, keys, stray, missing),
+                                     {"config": label, "parked_at": at, "put": target, "query": q, "keys": keys, "stray": stray, "missing": missing})
+                            break
+                    if target not in before: A.req("DELETE", "/inflight/" + target)
+            chk.tie("gateway still running after the in-flight listings (%s)" % label, g.alive(), g.log_tail())
     chk.samples.append(lmeta[len(lmeta) // 2])
     return lterms, lmeta
 
